@@ -325,6 +325,9 @@ def check(ctx, rep):
             else:
                 ok, why = q.args_forwarded(dsh[0], m)
                 rep.ob("R-SHUT", key + " one delegate shutdown, arguments forwarded", ok, why, where_of(dsh[0].fn, dsh[0].node), trace_of(p, dsh[0].seq))
+                rep.ob("R-SHUT", key + " closes the gate before the delegate/base-class shutdown", flips[0].seq < dsh[0].seq, "the delegate / base-class shutdown() is called before this executor's own shutdown flag is set: the delegate's shutdown may run foreign code (with cancel_futures the stdlib pool runs the done-callbacks of the queued futures it cancels while holding its non-reentrant shutdown lock); a submit() made from there must be refused by the closed gate -- with the gate still open it goes down to the delegate and blocks on that lock, held by its own thread", where_of(dsh[0].fn, dsh[0].node), trace_of(p, dsh[0].seq))
+                mut = q.params_mutated_before(p, dsh[0], m)
+                rep.ob("R-SHUT", key + " the forwarded arguments are the caller's, untouched", not mut, "%s before the delegate/base-class shutdown: what is forwarded is no longer what the caller passed (wait / cancel_futures are lost or changed on the way down)" % (mut[0][1] if mut else ""), where_of(mut[0][0].fn, mut[0][0].node) if mut else where_of(m), trace_of(p, mut[0][0].seq) if mut else None)
             if has_thread:
                 rep.ob("R-SHUT", key + " wakes the worker", bool(sets), "the worker's event is not set on the first-shutdown path", where_of(m), trace_of(p))
             for j in joins:
